@@ -400,3 +400,52 @@ Lemma witness_nonvacuous :
      = Some {| so_replies := [NackFrag 1 1 2 2 [2; 3] 0; AckNack 1 1 2 [2] 1]; so_adds := [];
                so_base := 1; so_nch := 0; so_sum := 0 |}.
 Proof. vm_compute. split; reflexivity. Qed.
+
+(* ---------------------------------------------------------------------------------------- *)
+(* the [OPanic] outcome of the fragment assembler (C05's debug-build arithmetic) is never produced:
+   the repaired FragmentAssembler::new_datafrag validates before it indexes (C05_no_panic) *)
+Lemma step_no_panic st S o : op_okb o = true -> Inv st S -> panicked (snd (step true st o)) = false.
+Proof.
+  intros Hok HI. destruct o as [w sn ts pay|w df ts|w first last count final|w start base numbits bits]; cbn [step].
+  - destruct (negb (sn <=? MAX_SN)); [reflexivity|]. unfold process_received_data.
+    destruct (r_prox st w); [|reflexivity]. destruct (should_ignore_change p sn); reflexivity.
+  - cbn [op_okb] in Hok. apply andb_true_iff in Hok as [Hok _]. apply andb_true_iff in Hok as [Hok _].
+    apply andb_true_iff in Hok as [_ Hdf]. apply FA.df_okb_spec in Hdf.
+    destruct (negb ((F.df_sn df <=? MAX_SN) && (F.df_start df <=? MAX_FN))); [reflexivity|].
+    destruct (negb (datafrag_deser_ok df)); [reflexivity|].
+    set (fa := match r_asm st w with Some fa => fa | None => {| F.fa_fs := F.df_frag_size df; F.fa_bufs := [] |} end).
+    assert (Hfa : FA.fa_inv fa).
+    { subst fa. destruct (r_asm st w) as [fa|] eqn:Ea; [apply (proj1 (proj2 HI) w fa Ea)|].
+      apply fresh_asm_ok. apply Hdf. }
+    destruct (FA.new_datafrag_ok fa df 0 Hfa Hdf) as (fa' & r & E & _). rewrite E.
+    destruct r as [bytes|]; [|reflexivity]. unfold process_received_data. cbn [set_asm r_prox].
+    destruct (r_prox st w); [|reflexivity]. destruct (should_ignore_change p (F.df_sn df)); reflexivity.
+  - destruct (negb ((first <=? MAX_SN) && (last <=? MAX_SN))); [reflexivity|].
+    destruct (r_prox st w) as [p|]; [|reflexivity]. unfold handle_heartbeat.
+    destruct (count <=? p_hb p); [reflexivity|].
+    set (p2 := irrelevant_changes_up_to (set_hb p count) first).
+    destruct (negb _ || negb final); [|reflexivity].
+    destruct (hb_sns st w p2 _) as [[b n] m]. cbn [snd panicked existsb]. unfold panicked.
+    rewrite existsb_app. cbn [existsb]. rewrite orb_false_r.
+    induction (fst (nackfrags st w _ (p_an p2))) as [|r l IH]; [reflexivity|exact IH].
+  - destruct (negb ((start <=? MAX_SN) && (base <=? MAX_SN))); [reflexivity|].
+    destruct (r_prox st w) as [p|]; [|reflexivity]. unfold handle_gap.
+    destruct (start <=? 0); [reflexivity|]. destruct (base <=? 0); reflexivity.
+Qed.
+
+Fixpoint never_panics (st : rstate) (ops : list op) : bool :=
+  match ops with
+  | [] => true
+  | o :: ops' => negb (panicked (snd (step true st o))) && never_panics (fst (step true st o)) ops'
+  end.
+
+Lemma run_no_panic ops : forall st S, forallb op_okb ops = true -> Inv st S -> never_panics st ops = true.
+Proof.
+  induction ops as [|o ops IH]; intros st S Hok HI; [reflexivity|].
+  cbn [forallb] in Hok. apply andb_true_iff in Hok as [H1 H2]. cbn [never_panics].
+  rewrite (step_no_panic st S o H1 HI). cbn [negb andb].
+  destruct (step_sound st S o H1 HI) as (S' & _ & HI'). now apply (IH _ S').
+Qed.
+
+Theorem no_panic c : wf_case c = true -> never_panics (init (c_matched c)) (c_ops c) = true.
+Proof. intros Hwf. apply (run_no_panic _ _ (sinit (c_matched c)) Hwf (Inv_init _)). Qed.
